@@ -15,6 +15,7 @@ use a10::io::ReadBufPool;
 use a10::{AsyncFd, Ring, SubmissionQueue};
 
 use crate::comp::{Case, CaseReport, Comp};
+use crate::sched::{self, Status as SchedStatus};
 use crate::simk::{self, KEv, PostSpec, Target, CQE_F_MORE, CQE_F_NOTIF};
 use crate::track;
 use crate::util::{self, Rng};
@@ -22,7 +23,7 @@ use crate::util::{self, Rng};
 pub struct LifeComp;
 
 /// Type-erased operation under test. `None` = Pending.
-trait Pollable {
+trait Pollable: Send {
     fn poll(&mut self, cx: &mut Context<'_>) -> Option<String>;
 }
 
@@ -31,7 +32,7 @@ struct FutOp<F, T> {
     canon: fn(T) -> String,
 }
 
-impl<F: Future<Output = std::io::Result<T>>, T> Pollable for FutOp<F, T> {
+impl<F: Future<Output = std::io::Result<T>> + Send, T: Send> Pollable for FutOp<F, T> {
     fn poll(&mut self, cx: &mut Context<'_>) -> Option<String> {
         match self.fut.as_mut().poll(cx) {
             Poll::Pending => None,
@@ -81,6 +82,8 @@ struct OpSlot {
     last_pending: Option<u32>,
     /// C03: a ready-making completion was posted since that poll.
     ready_since: bool,
+    /// C03: ready-making completions posted for it and not yet processed by Ring::poll
+    unprocessed_ready: u32,
     woken_since: bool,
     /// C09: the SQE of the previous attempt.
     last_sqe: Option<[u8; 64]>,
@@ -107,6 +110,8 @@ struct LifeCase {
     lost_at_drop: usize,
     /// a use-after-free was detected: stop calling into a10 for this case
     poisoned: bool,
+    /// outputs recorded by a `race`, replayed by the next ops: (op line, output lines)
+    raced: Vec<(String, Vec<String>)>,
 }
 
 const KINDS: &[&str] = &["read", "write", "sendzc", "mread"];
@@ -167,6 +172,7 @@ impl LifeCase {
             ring_dropped: false,
             lost_at_drop: 0,
             poisoned: false,
+            raced: Vec::new(),
         }
     }
 
@@ -301,6 +307,32 @@ impl LifeCase {
         ok
     }
 
+    /// Bookkeeping after a10 processed completions: which operations had a
+    /// ready-making completion processed, then which wakers were invoked.
+    fn after_ring_poll(&mut self, wakes: &[u32]) {
+        let pending: Vec<simk::Cqe> = simk::with_ring(self.rfd, |r, _| {
+            let mut v = r.cq_pending();
+            v.extend(r.overflow.iter().map(|(_, c)| *c));
+            v
+        });
+        for o in self.ops.iter_mut() {
+            if o.unprocessed_ready == 0 {
+                continue;
+            }
+            let Some(addr) = o.state_addr else { continue };
+            let still = pending
+                .iter()
+                .filter(|c| c.user_data > 3 && (c.user_data & !1) as usize == addr && (o.multi || c.flags & CQE_F_MORE == 0))
+                .count() as u32;
+            let processed = o.unprocessed_ready.saturating_sub(still);
+            if processed > 0 {
+                o.ready_since = true;
+                o.unprocessed_ready -= processed;
+            }
+        }
+        self.note_wakes(wakes);
+    }
+
     fn note_wakes(&mut self, wakes: &[u32]) {
         for w in wakes {
             for o in self.ops.iter_mut() {
@@ -382,7 +414,7 @@ impl LifeCase {
             if !restart {
                 op.expected.push_back(res as i64);
             }
-            op.ready_since = true;
+            op.unprocessed_ready += 1;
         } else {
             if flags & CQE_F_NOTIF == 0 {
                 op.slot = Some(res as i64);
@@ -393,7 +425,7 @@ impl LifeCase {
                 if !restart {
                     op.expected.push_back(v);
                 }
-                op.ready_since = true;
+                op.unprocessed_ready += 1;
             }
         }
         if op.dropped_running || op.obj.is_none() {
@@ -409,10 +441,28 @@ fn list<T: std::fmt::Display>(v: &[T]) -> String {
 
 impl Case for LifeCase {
     fn next_op(&mut self, rng: &mut Rng) -> Option<String> {
+        if !self.raced.is_empty() {
+            return Some(self.raced[0].0.clone());
+        }
         if self.steps_left == 0 || self.poisoned {
             return None;
         }
         self.steps_left -= 1;
+        // A race between a drop/poll of a future and the processing of its
+        // completions (needs a completion already waiting in the queue).
+        if self.ring.is_some() && rng.chance(1, 6) {
+            let all: Vec<usize> = simk::with_ring(self.rfd, |r, _| {
+                r.cq_pending().iter().filter(|c| c.user_data > 3).filter_map(|c| self.ops.iter().position(|o| o.obj.is_some() && o.state_addr == Some((c.user_data & !1) as usize))).collect()
+            });
+            let cands: Vec<usize> = all.iter().copied().filter(|i| all.iter().filter(|j| *j == i).count() == 1).collect();
+            if !cands.is_empty() {
+                let i = *rng.pick(&cands);
+                let kind = if rng.chance(2, 3) { "drop" } else { "poll" };
+                let n = rng.range(4, 24);
+                let sc: String = (0..n).map(|_| if rng.chance(1, 2) { '0' } else { '1' }).collect();
+                return Some(format!("life race {kind} {i} {} sched={sc}", i * 10));
+            }
+        }
         if self.steps_left == 0 && !self.ring_dropped {
             return Some("life rdrop".into());
         }
@@ -482,6 +532,15 @@ impl Case for LifeCase {
         if self.poisoned {
             return vec!["unsafe-state".into()];
         }
+        if !self.raced.is_empty() {
+            // the constituent ops of the race, in linearisation order
+            if self.raced[0].0 == op {
+                let (_, lines) = self.raced.remove(0);
+                self.kernel_events();
+                return lines;
+            }
+            return vec!["bad-op".into()];
+        }
         match t.as_slice() {
             ["life", "new", i, kind] => {
                 let Ok(i) = i.parse::<usize>() else { return vec!["bad-op".into()] };
@@ -543,6 +602,7 @@ impl Case for LifeCase {
                     slot: None,
                     last_pending: None,
                     ready_since: false,
+                    unprocessed_ready: 0,
                     woken_since: false,
                     last_sqe: None,
                     finished: false,
@@ -736,7 +796,7 @@ impl Case for LifeCase {
                     None => out.push("noenter".into()),
                 }
                 let wakes = util::drain_wakes();
-                self.note_wakes(&wakes);
+                self.after_ring_poll(&wakes);
                 let frees = self.collect_frees();
                 out.push(format!("wakes {} frees {}", list(&wakes), list(&frees)));
                 if r.is_err() {
@@ -747,6 +807,30 @@ impl Case for LifeCase {
                 let head = simk::with_ring(self.rfd, |r, _| r.cq_head());
                 out.push(format!("cqhead={head}"));
                 self.check_wakeups();
+            }
+            ["life", "race", kind @ ("drop" | "poll"), i, w, schedule] => {
+                // Two threads race on operation `i`: thread A drops / polls its
+                // future, thread B runs `Ring::poll` which processes completions
+                // already sitting in the completion queue (so it does not enter
+                // the kernel). They are interleaved at a10's scheduling points by
+                // `schedule`; the observable effects are recorded per thread and
+                // replayed by the two following ops in linearisation order.
+                let (Ok(i), Ok(w)) = (i.parse::<usize>(), w.parse::<u32>()) else { return vec!["bad-op".into()] };
+                let sched_s = schedule.strip_prefix("sched=").unwrap_or("");
+                if i >= self.ops.len() || self.ops[i].obj.is_none() || self.ring.is_none() || !self.raced.is_empty()
+                    || sched_s.is_empty() || !sched_s.bytes().all(|b| b == b'0' || b == b'1')
+                {
+                    return vec!["bad-op".into()];
+                }
+                // exactly one completion of this operation is waiting: the ring thread
+                // then has a single critical section on the operation
+                let addr = self.ops[i].state_addr;
+                let mine = simk::with_ring(self.rfd, |r, _| r.cq_pending().iter().filter(|c| c.user_data > 3 && Some((c.user_data & !1) as usize) == addr).count());
+                if mine != 1 || !self.completions_safe() {
+                    return vec!["bad-op".into()];
+                }
+                self.run_race(kind, i, w, sched_s);
+                out.push("ok".into());
             }
             ["life", "rdrop"] => {
                 if self.ring.is_none() {
@@ -766,7 +850,7 @@ impl Case for LifeCase {
                 }).unwrap_or(0);
                 out.push(format!("flush submit={n}"));
                 let wakes = util::drain_wakes();
-                self.note_wakes(&wakes);
+                self.after_ring_poll(&wakes);
                 let frees = self.collect_frees();
                 out.push(format!("wakes {} frees {}", list(&wakes), list(&frees)));
                 if r.is_err() {
@@ -848,7 +932,7 @@ impl Case for LifeCase {
         let mut features = std::mem::take(&mut self.feats);
         features.sort();
         features.dedup();
-        let nontrivial = features.iter().any(|f| f == "drop-in-flight" || f == "restart" || f == "out-of-order" || f == "multi-batch" || f == "zc-two-step" || f == "queue-full");
+        let nontrivial = features.iter().any(|f| f == "drop-in-flight" || f == "restart" || f == "out-of-order" || f == "multi-batch" || f == "zc-two-step" || f == "queue-full" || f == "race");
         CaseReport { oracle: std::mem::take(&mut self.oracle), features, nontrivial }
     }
 }
@@ -856,6 +940,168 @@ impl Case for LifeCase {
 fn single_new_block(mark: u64) -> Option<usize> {
     let v = track::live_since(mark - 1);
     if v.len() == 1 { Some(v[0].base) } else { None }
+}
+
+impl LifeCase {
+    fn run_race(&mut self, kind: &str, i: usize, w: u32, schedule: &str) {
+        use std::sync::{Arc, Mutex};
+        self.feats.push("race".into());
+        let op_addr = self.ops[i].state_addr;
+        let old_tail = simk::with_ring(self.rfd, |r, _| r.sq_tail());
+        let obj_slot: Arc<Mutex<Option<Box<dyn Pollable>>>> = Arc::new(Mutex::new(self.ops[i].obj.take()));
+        let ring_slot: Arc<Mutex<Option<Ring>>> = Arc::new(Mutex::new(self.ring.take()));
+        sched::install();
+        let is_drop = kind == "drop";
+        let a_slot = obj_slot.clone();
+        let ta = sched::spawn(move || {
+            let mut obj = util::lockp(&a_slot).take().unwrap();
+            if is_drop {
+                drop(obj);
+                "dropped".to_string()
+            } else {
+                let waker = util::waker(w);
+                let mut cx = Context::from_waker(&waker);
+                let r = obj.poll(&mut cx);
+                *util::lockp(&a_slot) = Some(obj);
+                r.unwrap_or_else(|| "pending".to_string())
+            }
+        });
+        let b_slot = ring_slot.clone();
+        let tb = sched::spawn(move || {
+            let mut ring = util::lockp(&b_slot).take().unwrap();
+            let r = ring.poll(Some(Duration::ZERO));
+            *util::lockp(&b_slot) = Some(ring);
+            if r.is_err() { "error".to_string() } else { String::new() }
+        });
+        // per-thread observations
+        let mut a_sqes: Vec<String> = Vec::new();
+        let mut a_frees: Vec<usize> = Vec::new();
+        let mut b_wakes: Vec<u32> = Vec::new();
+        let mut b_frees: Vec<usize> = Vec::new();
+        let mut first: Option<char> = None;
+        let mut tail_seen = old_tail;
+        let tids = [ta, tb];
+        let mut order: Vec<char> = schedule.chars().collect();
+        for _ in 0..400 {
+            order.push('0');
+            order.push('1');
+        }
+        for c in order {
+            let k = if c == '0' { 0 } else { 1 };
+            let tid = tids[k];
+            let before = sched::status(tid);
+            if matches!(before, Some(SchedStatus::Done(_))) {
+                if matches!(sched::status(tids[1 - k]), Some(SchedStatus::Done(_))) {
+                    break;
+                }
+                continue;
+            }
+            let after = sched::step(tid);
+            // who took the operation's mutex first decides the linearisation order
+            if first.is_none() {
+                if let (Some(SchedStatus::Parked(sched::LOCK, a)), Some(oa)) = (&before, op_addr) {
+                    let still = matches!(&after, SchedStatus::Parked(sched::LOCK, b) if b == a);
+                    if *a == oa && !still {
+                        first = Some(c);
+                    }
+                }
+            }
+            // attribute what just happened to the thread that ran
+            let wakes = util::drain_wakes();
+            let frees = self.collect_frees();
+            if k == 0 {
+                let lines = self.new_sqes(tail_seen, if is_drop { None } else { Some(i) }, if is_drop { Some(i) } else { None });
+                tail_seen = simk::with_ring(self.rfd, |r, _| r.sq_tail());
+                a_sqes.extend(lines);
+                a_frees.extend(frees);
+                if !wakes.is_empty() {
+                    self.fail("C03", "C03/wake-from-wrong-thread", "the future's own thread invoked a waker during a race".into());
+                }
+            } else {
+                b_wakes.extend(wakes);
+                b_frees.extend(frees);
+            }
+        }
+        sched::finish_all();
+        sched::uninstall();
+        self.ring = util::lockp(&ring_slot).take();
+        let a_result = match sched_result(ta) { Some(r) => r, None => "panic".to_string() };
+        if first == Some('1') {
+            // the completion was processed before the future's action
+            self.after_ring_poll(&b_wakes);
+        }
+        // A's output lines (same format as the plain ops)
+        let mut a_lines: Vec<String> = Vec::new();
+        let a_op: String;
+        if is_drop {
+            self.ops[i].dropped_running = self.ops[i].ud_inflight.is_some();
+            for l in &a_sqes {
+                if let Some(tg) = l.strip_prefix("cancel op") {
+                    if tg.parse::<usize>().ok() != Some(i) {
+                        self.fail("C06", "C06/cancel-wrong-target", format!("dropping op{i} requested cancellation of op{tg}"));
+                    }
+                }
+            }
+            a_lines.extend(a_sqes);
+            for f in a_frees {
+                a_lines.push(format!("free op{f}"));
+            }
+            if a_lines.is_empty() {
+                a_lines.push("-".into());
+            }
+            a_op = format!("life drop {i}");
+        } else {
+            self.ops[i].obj = util::lockp(&obj_slot).take();
+            a_lines.push(a_result.clone());
+            a_lines.extend(a_sqes);
+            a_op = format!("life poll {i} {w}");
+            // oracle bookkeeping as in the plain poll
+            let o = &mut self.ops[i];
+            if a_result == "pending" {
+                o.last_pending = Some(w);
+                o.woken_since = false;
+                o.ready_since = false;
+            } else if a_result != "panic" {
+                o.last_pending = None;
+                o.ready_since = false;
+                if a_result == "ready none" {
+                    o.finished = true;
+                } else {
+                    let got: i64 = if let Some(v) = a_result.strip_prefix("ready ok ") { v.parse().unwrap_or(i64::MIN) } else if let Some(v) = a_result.strip_prefix("ready err ") { v.parse::<i64>().map(|n| -n).unwrap_or(i64::MIN) } else { i64::MIN };
+                    let exp = o.expected.pop_front();
+                    if !o.multi {
+                        o.finished = true;
+                    }
+                    if exp != Some(got) {
+                        let kind = o.kind.clone();
+                        self.fail("C02", &format!("C02/wrong-result/{kind}"), format!("op{i} returned {got} in a race with completion processing, expected {exp:?}"));
+                    }
+                }
+            }
+        }
+        if first != Some('1') {
+            self.after_ring_poll(&b_wakes);
+        }
+        // B's output lines (a Ring::poll that did not enter the kernel)
+        let head = simk::with_ring(self.rfd, |r, _| r.cq_head());
+        let b_lines = vec!["noenter".to_string(), format!("wakes {} frees {}", list(&b_wakes), list(&b_frees)), format!("cqhead={head}")];
+        let b_op = "life rpoll -".to_string();
+        if first == Some('1') {
+            self.raced = vec![(b_op, b_lines), (a_op, a_lines)];
+            self.feats.push("race-completion-first".into());
+        } else {
+            self.raced = vec![(a_op, a_lines), (b_op, b_lines)];
+            self.feats.push("race-future-first".into());
+        }
+        self.check_wakeups();
+    }
+}
+
+fn sched_result(tid: usize) -> Option<String> {
+    match sched::status(tid) {
+        Some(SchedStatus::Done(r)) => if r == "panic" { None } else { Some(r) },
+        _ => None,
+    }
 }
 
 impl LifeCase {
